@@ -173,6 +173,7 @@ def run_property(prop, tier, seed, args):
 
     # classify failures: known finding or violation (with replay)
     violations, known_lines = [], []
+    replay_cache = {}
     os.makedirs(os.path.join(VERIF, "replays"), exist_ok=True)
     for f in failures:
         wit = f.get("witness")
@@ -184,10 +185,18 @@ def run_property(prop, tier, seed, args):
             continue
         rep = f.get("replayed")
         if rep is None and f["index"] is not None and all_units[f["index"]].replay is not None:
-            try:
-                rep = all_units[f["index"]].replay(f)
-            except Exception as e:  # replay harness problems never hide the violation
-                rep = {"reproduced": False, "error": repr(e)}
+            rfn = all_units[f["index"]].replay
+            key = getattr(rfn, "__qualname__", "") + ":" + str(getattr(rfn, "__code__", None) and rfn.__code__.co_firstlineno)
+            cacheable = getattr(rfn, "__closure__", None) is None     # plain functions replay a fixed domain: run once
+            if cacheable and key in replay_cache:
+                rep = replay_cache[key]
+            else:
+                try:
+                    rep = rfn(f)
+                except Exception as e:  # replay harness problems never hide the violation
+                    rep = {"reproduced": False, "error": repr(e)}
+                if cacheable:
+                    replay_cache[key] = rep
         reproduced = bool(rep and rep.get("reproduced", True) and "input" in rep)
         h = hashlib.sha1((f["obligation"] + str(wit)).encode()).hexdigest()[:10]
         path = os.path.join(VERIF, "replays", f"{prop}-{h}.json")
